@@ -776,4 +776,33 @@ theorem request_rotations_follow_requested_bases :
 
 example : requestRots Gen.bases (some "X") none (3, 5, 7) (0, 8, 0) = some ((0, 24, 0), (0, 8, 0)) := by decide
 
+/-! ## (l) histories of requests on one socket object -/
+
+/-- **History independence.** In the model, the parameters handed to the builder for request k of any
+history on one socket object, and the post-processing flag of its result objects, are `paramsOf` of request
+k's OWN arguments — whatever requests were made before and whatever state the socket is in. (The real
+socket is compared with this model request by request on random histories, and every request of a
+history is judged by the oracles exactly as a first request on a fresh socket.) -/
+theorem history_independence (table : List (String × Rot × Option String)) (s : Sock) (reqs : List Request) :
+    runSocket table s reqs = reqs.map (paramsOf table) := by
+  induction reqs generalizing s with
+  | nil => rfl
+  | cons r rs ih => simp [runSocket, Sock.request, ih]
+
+/-- in particular the last request of a history behaves like a first request -/
+theorem last_request_like_first (table : List (String × Rot × Option String)) (s : Sock)
+    (pre : List Request) (r : Request) :
+    (runSocket table s (pre ++ [r])).getLast? = some (paramsOf table r) ∧
+    runSocket table ⟨0⟩ [r] = [paramsOf table r] := by
+  rw [history_independence]
+  simp [runSocket, Sock.request]
+
+/-- `recv_measure` post-processes with the Z rule (rotations (0,0,0) on both sides) after ANY history, and
+a `create_measure` with named bases asks for exactly those -/
+example : (runSocket Gen.bases ⟨0⟩
+    [⟨"create_measure", 1, true, false, false, some "X", some "X", (0, 0, 0), (0, 0, 0)⟩,
+     ⟨"recv_measure", 2, true, false, false, none, none, (0, 0, 0), (0, 0, 0)⟩]) =
+    [some ⟨1, true, false, false, (0, 24, 0), (0, 24, 0), false⟩,
+     some ⟨2, true, false, false, (0, 0, 0), (0, 0, 0), true⟩] := by decide +kernel
+
 end NQ.C10
